@@ -67,6 +67,7 @@ func runC10(c *rules.Ctx) {
 	c.Returns("osmoutils.FormatTimeString", 0, "time.Time.Format(time.Time.Round(time.Time.UTC(t),0), \"2006-01-02T15:04:05.000000000\")", "record keys encode the time normalised to UTC (a caller's local-zone time must find the record written from block time)", "")
 	twapQueryRules(c)
 	twapKeyLayoutRules(c)
+	twapRecordLifecycleRules(c)
 	// record lookup
 	const GR = T + "Keeper.getRecordAtOrBeforeTime"
 	c.CallArg(GR, "osmoutils.GetFirstValueInRange", 3, "true", "the record at or before t is found by reverse iteration")
